@@ -96,7 +96,7 @@ func TestVerifC01(t *testing.T) {
 	vc := verifStart(t, "C01", "schedules")
 	defer vc.Finish()
 	verifE1SelfCheck(t)
-	total := vc.N(1200, 40000)
+	total := vc.N(1200, 12000)
 	for i := 0; i < total; i++ {
 		if !vc.Mine(i) {
 			continue
